@@ -84,7 +84,10 @@ def run(ctx):
     cases = [C05_inv.w(c) for c in cases]
     # <<<
     for prof in PROFILES:
-        impl, _ = ctx.correspond("entry_points_" + prof, cases, nontrivial=lambda c, i: not i.startswith("ERR") and i not in ("none", "NOKIND"), profile=prof, model=(prof == "release"))
+        r = C05_inv.guarded(ctx, "entry_points_" + prof, cases, prof, nontrivial=lambda c, i: not i.startswith("ERR") and i not in ("none", "NOKIND"), model=(prof == "release"))
+        if r is None:       # a_c05: hang storm seen by the pilot, failures already recorded
+            continue
+        impl = r[0]
         base = len(impl) - len(cases)
         for k, c in enumerate(cases):
             o = impl[base + k]
